@@ -30,7 +30,7 @@ Inductive case :=
 | AnchorDraw (oc : bool) (iv nu63 funding tip : Z) (ws : list Z) (o : dres (option Z))
 | AnchorRedraw (oc : bool) (iv prior broadcast : Z) (ws : list Z) (o : dres (option Z))
 | Earliest (iv nu63 funding o : Z)
-| CanonDenom (lo hi v : Z) (o : option bool)        (* None = no answer within the timeout *)
+| CanonDenom (lo hi v : Z) (o : option bool)        (* None = no answer within the timeout (regression cases for the fixed zero-bound hang) *)
 | Wakeups (margin jitter tip : Z) (ts : list (Z * Z * Z)) (ws : list Z) (bf : option Z) (o : wres).
 
 (** equalities *)
@@ -136,10 +136,7 @@ Definition prop_case (c : case) : bool :=
 (** Known-finding classes.
     1 = a pair e ⊑ e' in which e' answers negatively a confirmatory clause that e left
         unanswered, and that flips a Conforms decision (documented obligation on evidence
-        sources; the literal "monotone over the whole lattice" reading fails there).
-    2 = the canonical-denomination test on value 0 under a zero lower bound (an implementor of
-        PoolMigrationConstants returning max_residual_value = 0): the digit-stripping loop never
-        exits. *)
+        sources; the literal "monotone over the whole lattice" reading fails there). *)
 Definition is_conforms (o : option classification) : bool :=
   match o with Some (Conforms _) => true | _ => false end.
 
@@ -148,8 +145,6 @@ Definition known_class (c : case) : N :=
   | ClassifyPair _ e e' o o' =>
       if ev_le e e' && new_negative_confirmatory e e' && is_conforms o && ocls_eqb o' (Some Nonconforming)
       then 1%N else 0%N
-  | CanonDenom lo hi v o =>
-      if (lo =? 0) && (v =? 0) && negb (is_some o) then 2%N else 0%N
   | _ => 0%N
   end.
 
